@@ -68,10 +68,10 @@ RECURSIVE Colour(_,_,_)
 Colour(S, frontier, col) ==
    IF frontier = {} THEN
       (IF DOMAIN col = Chambers(S) THEN col
-       ELSE LET d == Least(Chambers(S) \ DOMAIN col) IN Colour(S, {d}, [x \in (DOMAIN col) \cup {d} |-> IF x = d THEN 1 ELSE col[x]]))
+       ELSE LET d == Least(Chambers(S) \ DOMAIN col) IN Colour(S, {d}, TLCEval([x \in (DOMAIN col) \cup {d} |-> IF x = d THEN 1 ELSE col[x]])))
    ELSE LET nxt == {e[2] : e \in {x \in Edges(S) : x[1] \in frontier}} \ DOMAIN col
             par(w) == CHOOSE v \in frontier : <<v, w>> \in Edges(S)
-        IN Colour(S, nxt, [x \in (DOMAIN col) \cup nxt |-> IF x \in DOMAIN col THEN col[x] ELSE 0 - col[par(x)]])
+        IN Colour(S, nxt, TLCEval([x \in (DOMAIN col) \cup nxt |-> IF x \in DOMAIN col THEN col[x] ELSE 0 - col[par(x)]]))
 TwoColouring(S) == Colour(S, {}, <<>>)
 WeaklyOriented(S) == LET c == TwoColouring(S) IN \A e \in Edges(S) : c[e[1]] # c[e[2]]
 Oriented(S) == Loopless(S) /\ WeaklyOriented(S)
@@ -84,9 +84,9 @@ Paths(S, frontier, W) ==
    ELSE LET cand == {p \in frontier \X Idx(S) : Op(S,p[2],p[1]) # 0 /\ Op(S,p[2],p[1]) \notin DOMAIN W}
             tgt == {Op(S,p[2],p[1]) : p \in cand}
             pick(t) == CHOOSE p \in cand : Op(S,p[2],p[1]) = t
-            W2 == [t \in (DOMAIN W) \cup tgt |-> IF t \in DOMAIN W THEN W[t] ELSE LET p == pick(t) IN Append(W[p[1]], p[2])]
+            W2 == TLCEval([t \in (DOMAIN W) \cup tgt |-> IF t \in DOMAIN W THEN W[t] ELSE LET p == pick(t) IN Append(W[p[1]], p[2])])
         IN Paths(S, tgt, W2)
-PathWords(S) == Paths(S, {1}, [t \in {1} |-> <<>>])
+PathWords(S) == TLCEval(Paths(S, {1}, [t \in {1} |-> <<>>]))
 RECURSIVE Walk(_,_,_)
 Walk(S, d, w) == IF w = <<>> \/ d = 0 THEN d ELSE Walk(S, Op(S, Head(w), d), Tail(w))
 
@@ -96,7 +96,7 @@ IsMorphism(S, T, f) ==
    /\ \A d \in Chambers(S) : /\ \A i \in Idx(S) : f[Op(S,i,d)] = Op(T,i,f[d])
                              /\ \A i \in 0..(S.dim-1) : M(S,i,d) = M(T,i,f[d])
 \* for connected S a morphism is determined by the image of chamber 1
-MorphismCandidate(S, T, W, e) == [d \in Chambers(S) |-> Walk(T, e, W[d])]
+MorphismCandidate(S, T, W, e) == TLCEval([d \in Chambers(S) |-> Walk(T, e, W[d])])
 Morphisms(S, T) ==
    IF S.dim # T.dim THEN {} ELSE
    LET W == PathWords(S) IN
@@ -112,12 +112,17 @@ SetIsomorphic(S, T) == S.n = T.n /\ S.dim = T.dim /\ SetMorphisms(S, T) # {}
 
 (* ---------------------------------------------------------------- derived symbols *)
 IsPerm(p, n) == DOMAIN p = 1..n /\ {p[d] : d \in 1..n} = 1..n
-PermInv(p) == [e \in DOMAIN p |-> CHOOSE d \in DOMAIN p : p[d] = e]
+PermInv(p) == TLCEval([e \in DOMAIN p |-> CHOOSE d \in DOMAIN p : p[d] = e])
 \* chamber d of S becomes chamber p[d]
 Renumber(S, p) == LET q == PermInv(p) IN
    [n |-> S.n, dim |-> S.dim,
     op |-> [i \in 1..(S.dim+1) |-> [e \in 1..S.n |-> IF S.op[i][q[e]] = 0 THEN 0 ELSE p[S.op[i][q[e]]]]],
     v |-> [i \in 1..S.dim |-> [e \in 1..S.n |-> S.v[i][q[e]]]]]
+\* T is S with chamber d renamed p[d] (checked pointwise: linear, no inverse needed)
+IsRenumbering(S, T, p) ==
+   /\ T.n = S.n /\ T.dim = S.dim /\ IsPerm(p, S.n)
+   /\ \A i \in 1..(S.dim+1), d \in 1..S.n : T.op[i][p[d]] = (IF S.op[i][d] = 0 THEN 0 ELSE p[S.op[i][d]])
+   /\ \A i \in 1..S.dim, d \in 1..S.n : T.v[i][p[d]] = S.v[i][d]
 RenumberSet(S, p) == LET q == PermInv(p) IN
    [n |-> S.n, dim |-> S.dim,
     op |-> [i \in 1..(S.dim+1) |-> [e \in 1..S.n |-> IF S.op[i][q[e]] = 0 THEN 0 ELSE p[S.op[i][q[e]]]]]]
@@ -133,7 +138,7 @@ AddNew(S, order, d, i) == IF i > S.dim THEN order
    ELSE LET e == Op(S, i, d) IN AddNew(S, IF e = 0 \/ e \in ToSet(order) THEN order ELSE Append(order, e), d, i + 1)
 RECURSIVE Bfs(_,_,_)
 Bfs(S, order, k) == IF k > Len(order) THEN order ELSE Bfs(S, AddNew(S, order, order[k], 0), k + 1)
-RootedPerm(S, r) == LET order == Bfs(S, <<r>>, 1) IN [d \in 1..S.n |-> CHOOSE k \in 1..S.n : order[k] = d]
+RootedPerm(S, r) == LET order == Bfs(S, <<r>>, 1) IN TLCEval([d \in 1..S.n |-> CHOOSE k \in 1..S.n : order[k] = d])
 Flat(S) == FlattenSeq(S.op) \o (IF "v" \in DOMAIN S THEN FlattenSeq(S.v) ELSE <<>>)
 RECURSIVE SeqLess(_,_)
 SeqLess(a, b) == IF a = <<>> THEN FALSE ELSE IF Head(a) # Head(b) THEN Head(a) < Head(b) ELSE SeqLess(Tail(a), Tail(b))
@@ -146,13 +151,15 @@ CanonSet(S) == LET cands == {RenumberSet(S, RootedPerm(S, r)) : r \in Chambers(S
 (* ---------------------------------------------------------------- congruences and quotients *)
 \* the coarsest equivalence that respects all degrees and is compatible with all operations:
 \* partition refinement from the degree signature; classes named by their least chamber
-Canonise(S, key) == [d \in Chambers(S) |-> Least({e \in Chambers(S) : key[e] = key[d]})]
+\* (TLCEval forces the function to an explicit value: nested lazily evaluated functions would be
+\* re-evaluated at every application, exponentially in the number of refinement rounds)
+Canonise(S, key) == TLCEval([d \in Chambers(S) |-> Least({e \in Chambers(S) : key[e] = key[d]})])
 RECURSIVE Refine(_,_)
 Refine(S, cls) ==
-   LET key == [d \in Chambers(S) |-> <<cls[d], [i \in Idx(S) |-> cls[Op(S,i,d)]]>>]
+   LET key == TLCEval([d \in Chambers(S) |-> <<cls[d], [i \in Idx(S) |-> cls[Op(S,i,d)]]>>])
        nxt == Canonise(S, key)
    IN IF nxt = cls THEN cls ELSE Refine(S, nxt)
-Coarsest(S) == Refine(S, Canonise(S, [d \in Chambers(S) |-> [i \in 0..(S.dim-1) |-> M(S,i,d)]]))
+Coarsest(S) == Refine(S, Canonise(S, TLCEval([d \in Chambers(S) |-> [i \in 0..(S.dim-1) |-> M(S,i,d)]])))
 \* cls is a congruence that respects degrees
 IsCongruence(S, cls) == \A d, e \in Chambers(S) : cls[d] = cls[e] =>
                            /\ \A i \in 0..(S.dim-1) : M(S,i,d) = M(S,i,e)
